@@ -30,7 +30,7 @@ CLAIMED = {
     "C09": ("4/C09", "Bayes identity as C07; round trip at Dx+Dy<=3 with the prior covariance concrete for Dx+Dy=3"),
     "C10": ("4/C10", "all conditional kinds, Dx != Dy included, R=1 with N<=2 (3 thorough) observations and R=N; well-formedness through product/slice/multiply/log_integral"),
     "C13": ("4/C13", "entropy/KL/conditional entropy/MI equalities against Stein-moment expectations; KL>=0 and MI>=0 solver-decided only for D=Dx=Dy=1"),
-    "C11": ("4/C11 + 11.4", "regression N=2 fully symbolic, N=4 with all 24 orders (matrices concrete), N=3 thorough: sequential in every order, joint+condition_on, prior*prod set_y, evidence; prior built five ways; Kalman T=2 fully symbolic and T=6/8 (12 thorough) with the model matrices bound to generic rationals vs the dense joint built by the spec"),
+    "C11": ("4/C11 + 11.4", "regression N=2 fully symbolic, N=4 with all 24 orders (matrices concrete), N=3 thorough: sequential in every order, joint+condition_on, prior*prod set_y, evidence; prior built five ways; observation model built from Sigma=, Lambda= or both (12.2); Kalman T=2 fully symbolic and T=6/8 (12 thorough) with the model matrices bound to generic rationals vs the dense joint built by the spec"),
     "C12": ("4/C12", "op(obj).slice(idx') = op(obj.slice(idx)) for enumerated index arrays (repeats, negatives, permutations) over R in {2,3} (D=2) and R in {5,6} (D=1); all classes and operations listed in evidence (products on cold / cache-warm measures and densities, log-factor integrals, transformations with the batch on either side, approximate conditionals, truncated measures incl. limits infinite on different sides); index arrays are enumerated, values solved"),
     "C14": ("4/C14", "log-factor for all factor kinds; linear conditionals with arbitrary Gaussian q; LRBF/LSEM with tilted-Gaussian closed-form oracle, Dx=1, Dk<=2 (Dx=2 thorough)"),
     "C15": ("4/C15", "relational: specialised vs general class built from the same parameters, all operations the specialised class supports; D=2, R<=2, Dx+Dy<=3 (identity D<=2)"),
@@ -38,7 +38,7 @@ CLAIMED = {
     "C17": ("4/C17", "coherence clause (mean, covariance, precision = inverse, log-determinant of condition_on_x for all four links, link value arbitrary); step-link EQUALITY of the bound for Dx=1; exactness at zero input weights and the first-order tightness condition (d gap/d eps = 0 at eps = 0, jvp of the real code) for exp and cosh-1; lb <= truth for exp, cosh-1 (Dx<=2) and the rectified-linear link (Dx=1) through a witness minorant (returned value = closed-form expectation of an explicit pointwise minorant, for arbitrary variational parameters; failed equalities are replayed against quadrature of the true expectation); declined: the inequality for several noise units / wide A / rectified-linear Dx>=2, tightness beyond first order"),
     "C18": ("4/C18 + 11.7", "round trips (tree flatten/unflatten, jit boundary, tree_map, to_dict/from_dict, scan carry incl. T=6 (12) filters with concrete matrices) for every class; vmap and grad as translation validation on a fixed set of pipelines (incl. truncated-measure integrals and the heteroscedastic bound at zero weights); exceptions that occur only under tracing are confirmed by a real jit run; numerical 'jit == eager' (XLA) and 'all programs' are outside"),
     "C20": ("4/C20 + 10.8", "normal cdf as a symbolic atom (axioms: range, monotone, symmetry, Phi(0)=1/2, limits); F_k decided by fundamental-theorem derivatives + additivity + two anchors, k<=4 (6 thorough), finite / one-sided / infinite limits, R<=2; evaluation on the three regions; normalised variants; far-tail floating-point accuracy outside"),
-    "C19": ("4/C19", "jax.random.normal stubbed by an arbitrary array; R<=2, D<=3, n<=2"),
+    "C19": ("4/C19 + 12.1", "jax.random.normal stubbed by an arbitrary array; R<=3, D<=3, n<=2; user-built densities, after update, and densities returned by slice / get_marginal / condition_on(.)(x) / get_density_of_linear_sum / GaussianMeasure.get_density"),
 }
 
 NOT_APPLICABLE = {
